@@ -288,7 +288,7 @@ impl<'a> Iterator for Lexer<'a> {
                                         continue;
                                     }
                                     self.l += '{'.len_utf8();
-                                    let mut i = 0;
+                                    let mut i: u32 = 0;
                                     let mut valid = true;
                                     loop {
                                         let Some(n) = iter.next() else {
@@ -305,7 +305,15 @@ impl<'a> Iterator for Lexer<'a> {
                                                 valid = false;
                                             }
                                             Some(d) => {
-                                                i = i * 16 + d;
+                                                // A value that doesn't fit in a u32 is not a
+                                                // valid Unicode scalar value.
+                                                match i
+                                                    .checked_mul(16)
+                                                    .and_then(|i| i.checked_add(d))
+                                                {
+                                                    Some(n) => i = n,
+                                                    None => valid = false,
+                                                }
                                             }
                                         }
                                     }
